@@ -115,8 +115,13 @@ func c03Run(c *vcore.Ctx) *vcore.Violation {
 	filter := kFilterAllowAllBut([]string{"mkdirat"}, []string{"mkdir"})
 	var res runner.Result
 	var out *kOut
+	// the caller's stack depth when it starts the run (see withStackPhase)
+	levels, fine := src.Int(130, "stack_levels"), 16*src.Int(5, "stack_fine")
+	c.Logf("caller stack phase: %d frames + %d bytes", levels, fine)
 	ok := watchdog(60*time.Second, func() {
-		res, out = kRunPtrace(context.Background(), &kOpts{script: script, filter: filter, handler: h})
+		withStackPhase(levels, fine, func() {
+			res, out = kRunPtrace(context.Background(), &kOpts{script: script, filter: filter, handler: h})
+		})
 	})
 	if !ok {
 		return vcore.Violate(prop, "hang", "run", "run did not return")
